@@ -340,7 +340,8 @@ static int bytestream_bsend(struct xcm_socket *conn_s, const void *buf,
 	    if (errno != EAGAIN)
 		return -1;
 	    if (socket_wait(conn_s, XCM_SO_SENDABLE) < 0)
-		return -1;
+		/* data already accepted must be reported as such */
+		return sent > 0 ? sent : -1;
 	} else
 	    sent += rc;
     } while (sent < len);
@@ -375,7 +376,11 @@ int xcm_send(struct xcm_socket *__restrict conn_s,
 	else
 	    rc = msg_bsend(conn_s, buf, len);
 
-	if (rc >= 0 && socket_finish(conn_s) < 0)
+	/* At this point, the message (or data) is accepted, and will
+	   be sent regardless. An interrupted wait must thus not be
+	   reported as a failed send, or the application would
+	   retransmit, and the receiver see a duplicate. */
+	if (rc >= 0 && socket_finish(conn_s) < 0 && errno != EINTR)
 	    return -1;
 
 	return rc;
